@@ -42,7 +42,7 @@ RULE = ("case = (state kind pos/cplx/dens, n<=4 (quick: n = 1,2,3 with every reg
         "ordered pairs) with A as a list, one Eulerian batch of length 4^n whose cyclic neighbours cover every ordered pair once, and "
         "random batches (size 1..9, repeated rows; contiguous / strided-view / transposed memory layout) and Eulerian batches with A in every "
         "accepted form: python int, numpy integer scalars, 0-d ndarray / tensor (singletons), list, tuple, 1-d int64/int32 ndarray / tensor, "
-        "lists of numpy ints / 0-d tensors, range (arithmetic progressions); slices and boolean masks are handed over too but are NOT among the forms the "
+        "lists of numpy ints / 0-d tensors, range (arithmetic progressions), boolean masks; slices are handed over too but are NOT among the forms the "
         "property lists (int/list/array/tensor): informational counters only, no verdict; call histories on one SWAP / state / "
         "tensor object; plus a malformed "
         "stream (negative, repeated, out-of-range indices); non-trivial iff n >= 2, A proper non-empty, parameters non-zero; "
@@ -66,11 +66,12 @@ SCALAR_FORMS_R5 = ("npintp", "npuint8", "npint16", "array0_32", "tensor0_32")
 SEQ_FORMS_R5 = ("list_np32", "list_npintp", "list_t0_32", "list_mixed", "tuple_np", "tuple_t0", "array_intp", "array16", "array_u32")
 MASK_FORMS = ("mask_list", "mask_array", "mask_tensor")
 # The property's quantifier lists the forms of the region: "given as int/list/array/tensor" = a Python / numpy integer, a list / tuple / range of
-# integers, an integer numpy array (incl. 0-d), an integer torch tensor (incl. 0-d).  A Python `slice` and a boolean MASK (list / ndarray / tensor
-# of bools) happen to work with `s[:, A]` of the present code but are not among them: a rewrite that normalises the region through
-# `operator.index` (raises TypeError for a slice, reads the bools of a mask as the sites 0 / 1) keeps the property.  These forms are still handed
-# over (an outcome that changes is counted) but carry NO verdict of any level.
-INFO_FORMS = ("slice",) + MASK_FORMS
+# integers, an integer numpy array (incl. 0-d), an integer torch tensor (incl. 0-d) and - coordinator's ruling - boolean MASKS over the sites
+# (they are of the documented container types list / np.array / torch.Tensor, the clean code handles them, and a change that silently swaps
+# another region for them is a regression: seeded M3_C09_2, M4_C09_1).  A Python `slice` happens to work with `s[:, A]` of the present code but
+# is not a documented type: a rewrite that normalises the region through `operator.index` raises TypeError for it, loudly, and keeps the
+# property.  The slice form is still handed over (an outcome that changes is counted) but carries NO verdict of any level.
+INFO_FORMS = ("slice",)
 
 
 def slice_for(A, n, rng):
